@@ -76,6 +76,9 @@ func cmdCheck(args []string) int {
 		cc.timeout = 240 * time.Second
 		coverPaths = 1 << 20
 	}
+	if t, err := strconv.Atoi(os.Getenv("GOVC_QUERY_TIMEOUT")); err == nil && t > 0 {
+		cc.timeout = time.Duration(t) * time.Second // used by the self-test, where many obligations are expected to fail
+	}
 	cc.cs = loadContracts(*repo, *verif)
 	known := loadKnown(*verif)
 
